@@ -3250,6 +3250,7 @@ def _check_entry_for_changes(
     root_path: bytes,
     filter_blob_callback: Callable[[Blob, bytes], Blob] | None = None,
     trust_ctime: bool = True,
+    honor_filemode: bool = False,
 ) -> bytes | None:
     """Check a single index entry for changes.
 
@@ -3259,6 +3260,7 @@ def _check_entry_for_changes(
       root_path: Root filesystem path
       filter_blob_callback: Optional callback to filter blobs
       trust_ctime: If True, use ctime for change detection (default: True)
+      honor_filemode: If True, a changed executable bit counts as a change
     Returns: tree_path if changed, None otherwise
     """
     if isinstance(entry, ConflictedIndexEntry):
@@ -3275,6 +3277,17 @@ def _check_entry_for_changes(
 
         if not stat.S_ISREG(st.st_mode) and not stat.S_ISLNK(st.st_mode):
             return None
+
+        # The entry's type (file <-> symlink) or executable bit may have
+        # changed while the content, and so the blob id, stayed the same.
+        if stat.S_IFMT(st.st_mode) != stat.S_IFMT(entry.mode):
+            return tree_path
+        if (
+            honor_filemode
+            and stat.S_ISREG(st.st_mode)
+            and cleanup_mode(st.st_mode) != cleanup_mode(entry.mode)
+        ):
+            return tree_path
 
         # Optimization: If stat matches index entry (mtime and size unchanged),
         # we can skip reading and filtering the file entirely. This is a significant
@@ -3307,6 +3320,7 @@ def get_unstaged_changes(
     preload_index: bool = False,
     trust_ctime: bool = True,
     max_stat: int | None = None,
+    honor_filemode: bool = False,
 ) -> Generator[bytes, None, None]:
     """Walk through an index and check for differences against working tree.
 
@@ -3318,6 +3332,7 @@ def get_unstaged_changes(
       trust_ctime: If True, use ctime for change detection (default: True)
       max_stat: If set, limit the number of stat operations performed.
         When the limit is reached, remaining files are assumed unchanged.
+      honor_filemode: If True, a changed executable bit counts as a change
     Returns: iterator over paths with unstaged changes
     """
     # For each entry in the index check the sha1 & ensure not staged
@@ -3356,6 +3371,7 @@ def get_unstaged_changes(
                         root_path,
                         filter_blob_callback,
                         trust_ctime,
+                        honor_filemode,
                     )
                     for tree_path, entry in entries
                 ]
@@ -3372,7 +3388,12 @@ def get_unstaged_changes(
             if max_stat is not None and stat_count >= max_stat:
                 return
             result = _check_entry_for_changes(
-                tree_path, entry, root_path, filter_blob_callback, trust_ctime
+                tree_path,
+                entry,
+                root_path,
+                filter_blob_callback,
+                trust_ctime,
+                honor_filemode,
             )
             stat_count += 1
             if result is not None:
